@@ -135,3 +135,100 @@ def insort(n):
 
 def scenarios():
     return [key_export(), exportable_flag(), bool_parse, bool_value] + [insort(n) for n in (0, 1, 2, 3)]
+
+
+def key_or(what):
+    """PGPKey.__or__: where each kind of object is attached when a key is assembled from packets (import) or extended"""
+    label = 'C14/PGPKey.__or__[%s]' % what
+    UID, PKT = 'pgpy.pgp.PGPUID', 'pgpy.packet.packets.PubKeyV4'
+    SD = 'pgpy.types.SorteDeque'
+
+    def gen(repo):
+        r = scn.Run(repo, KEY, '__or__', label)
+        ex, st = r.ex, r.st
+        me = E.VObj(KEY, 'key')
+        r.set('key', '_sibling', E.VNone())
+        r.set('key', '_signatures', E.VObj(SD, 'key-sigs'))
+        r.set('key', '_uids', E.VObj(SD, 'key-uids'))
+        r.set('key', '_children', E.VDict([]))
+
+        def insort(ex, st, o, a):
+            st.ghost['insorted'] = st.ghost.get('insorted', ()) + ((o.ref, a[0]),)
+            return [(st, E.VNone())]
+        r.hook(SD, 'insort', scn.method_hook(insort))         # contract proved above (insort keeps order, stable)
+        pub_me, pub_other, other_primary = z3.Bools('this_key_is_public other_is_public other_is_primary')
+        r.hook(KEY, 'is_public', lambda ex, st, o, a: [(st, E.VBool(pub_me if o.ref == 'key' else pub_other))])
+        r.hook(KEY, 'is_primary', lambda ex, st, o, a: [(st, E.VBool(other_primary if o.ref == 'other' else True))])
+        KEYID = E.VStr(z=z3.Const('SUBKEY_ID', B))
+        FP = 'pgpy.types.Fingerprint'
+        r.hook(KEY, 'fingerprint', lambda ex, st, o, a: [(st, E.VObj(FP, 'fp-' + o.ref))])
+        r.hook(FP, 'keyid', scn.const(KEYID))
+        if what == 'key packet':
+            r.set('key', '_key', E.VNone())
+            other = E.VObj(PKT, 'pkt')
+        elif what == 'second key packet':
+            r.set('key', '_key', E.VObj(PKT, 'first'))
+            other = E.VObj(PKT, 'pkt')
+        elif what == 'subkey':
+            r.set('key', '_key', E.VObj(PKT, 'first'))
+            other = E.VObj(KEY, 'other')
+        elif what == 'signature':
+            r.set('key', '_key', E.VObj(PKT, 'first'))
+            other = E.VObj(SIG, 'sig')
+            binding = z3.Bool('is_subkey_binding')
+            ST = repo.enum_members('pgpy.constants.SignatureType')
+            r.hook(SIG, 'type', scn.const(E.VInt(z3.If(binding, ST['Subkey_Binding'], ST['Positive_Cert']), enum='pgpy.constants.SignatureType')))
+            r.set('sig', '_signature', E.VObj('pgpy.packet.packets.SignatureV4', 'sigpkt'))
+            r.set('sigpkt', 'subpackets', E.VObj('pgpy.packet.fields.SubPackets', 'subp'))
+            emb = E.VObj('pgpy.packet.subpackets.signature.EmbeddedSignature', 'embedded-packet')
+            r.hook('pgpy.packet.fields.SubPackets', '__getitem__', scn.method_hook(lambda ex, st, o, a: [(st, ex.new_list(st, [emb]))]))
+            r.hook(SIG, '__call__', lambda ex, st, c, a: [(st, E.VObj(SIG, 'wrapped-embedded'))])
+            r.hook(SIG, '__or__', scn.method_hook(lambda ex, st, o, a: [(st, o)]))
+        else:
+            r.set('key', '_key', E.VObj(PKT, 'first'))
+            other = E.VObj(UID, 'uid')
+        for pi, (s, v) in enumerate(r.call(me, [other])):
+            ins = s.ghost.get('insorted', ())
+            if what == 'second key packet':
+                r.oblige(s, 'a-key-that-has-its-packet-refuses-another-one(TypeError),nothing-changes/p%d' % pi,
+                         z3.BoolVal(isinstance(v, E.Raise) and v.exc.split(':')[0] == 'TypeError' and len(ins) == 0 and s.heap.get(('key', '_key')).ref == 'first'))
+                continue
+            if isinstance(v, E.Raise):
+                if what == 'subkey':
+                    r.oblige(s, 'refused(TypeError)-only-if-the-other-key-is-a-primary-or-of-the-other-half/p%d' % pi,
+                             z3.And(z3.BoolVal(v.exc.split(':')[0] == 'TypeError'), z3.Or(other_primary, pub_other != pub_me)), v.where)
+                else:
+                    r.oblige(s, 'safety(%s)/p%d' % (v.exc.split(':')[0], pi), z3.BoolVal(False), v.where)
+                continue
+            r.oblige(s, 'returns-this-key/p%d' % pi, z3.BoolVal(v is me or (isinstance(v, E.VObj) and v.ref == 'key')))
+            if what == 'key packet':
+                r.oblige(s, 'becomes-the-key-packet/p%d' % pi, z3.BoolVal(s.heap.get(('key', '_key')) is other and len(ins) == 0))
+            elif what == 'subkey':
+                ch = s.heap.get(('key', '_children'))
+                pairs = ch.of(s) if isinstance(ch, E.VDict) else []
+                r.oblige(s, 'attached-as-subkey-under-its-key-id,with-this-key-as-parent/p%d' % pi,
+                         z3.And(z3.Not(other_primary), pub_other == pub_me,
+                                z3.BoolVal(len(pairs) == 1 and pairs[0][0] is KEYID and pairs[0][1] is other and len(ins) == 0)))
+                par = s.heap.get(('other', '__parent'))
+                r.oblige(s, 'parent-link/p%d' % pi, z3.BoolVal(isinstance(par, E.VExt) and par.name == 'weakref.ref' and par.args[0] is me))
+            elif what == 'signature':
+                refs = [(d, x.ref) for d, x in ins if isinstance(x, E.VObj)]
+                r.oblige(s, 'inserted-in-order-among-the-key-signatures;a-subkey-binding-also-contributes-its-embedded-cross-signature/p%d' % pi,
+                         z3.If(binding, z3.BoolVal(refs == [('key-sigs', 'sig'), ('key-sigs', 'wrapped-embedded')]), z3.BoolVal(refs == [('key-sigs', 'sig')])))
+                if len(refs) == 2:
+                    r.oblige(s, 'the-embedded-signature-is-marked-as-belonging-to-the-binding/p%d' % pi,
+                             z3.BoolVal(isinstance(s.heap.get(('wrapped-embedded', '__parent')), E.VExt) and s.heap[('wrapped-embedded', '__parent')].args[0] is other))
+            else:
+                refs = [(d, x.ref) for d, x in ins if isinstance(x, E.VObj)]
+                r.oblige(s, 'inserted-in-order-among-the-identities/p%d' % pi, z3.BoolVal(refs == [('key-uids', 'uid')]))
+                par = s.heap.get(('uid', '__parent'))
+                r.oblige(s, 'with-this-key-as-its-parent/p%d' % pi, z3.BoolVal(isinstance(par, E.VExt) and par.name == 'weakref.ref' and par.args[0] is me))
+        return r.result()
+    return Scenario(label, KEY + '.__or__', gen, props=('C14', 'C15'))
+
+
+_base_scn_or = scenarios
+
+
+def scenarios():
+    return _base_scn_or() + [key_or(w) for w in ('key packet', 'second key packet', 'subkey', 'signature', 'identity')]
